@@ -38,11 +38,11 @@ Print Assumptions C06_empty_level_refuted.
 
 (* ---- the source functions themselves: Gallina translations regenerated from /repo on every run (Gen/Translated.v)
    equal the model functions the theorems above are about, for every input, and never panic ---- *)
-From Trans Require Spec Equiv.
+From Trans Require SpecTopics EquivTopics.
 
 (* topics.nextTopicLevel, as the source has it now, is Topics.Model.next_level: level, remainder and error, for every byte string *)
-Theorem C06_nextTopicLevel_is_model : Trans.Spec.T_nextTopicLevel.
-Proof. exact Trans.Equiv.nextTopicLevel_equiv. Qed.
+Theorem C06_nextTopicLevel_is_model : Trans.SpecTopics.T_nextTopicLevel.
+Proof. exact Trans.EquivTopics.nextTopicLevel_equiv. Qed.
 Print Assumptions C06_nextTopicLevel_is_model.
 
 From Topics Require SpecTotal ProofsTotal.
